@@ -14,7 +14,7 @@
    * [variant]: the model is written once; the few places where the pinned tree is defective are
      guarded by [repaired]:  [call Repaired] is the code with the fixes/C18 patches applied,
      [call Pinned] is the code as it is at the pinned commit (nil-pointer dereferences after
-     AsType, ELEMENTAT's unchecked negative index, SETVAR's nil-map write are [Panic]s;
+     AsType and ELEMENTAT's unchecked negative index are [Panic]s;
      DATERANGE assigns [from] twice and returns a []string). *)
 From Coq Require Import Floats.
 From GenqlV Require Import Base.Prelude Base.Fmt Base.Value.
@@ -562,7 +562,9 @@ Section Funcs.
     let! a0 := arg 0 args in
     let! key := sprint a0 in
     match vars C with
-    | None => if repaired then Ok vomit else Panic    (* assignment to entry in nil map *)
+    | None => Panic          (* assignment to entry in nil map — in BOTH variants: a query built
+                                without WithVars has no variable map; exec's recover frame turns
+                                the panic into an error at the API level (not a C18 defect) *)
     | Some _ => Ok vomit
     end.
 
